@@ -33,8 +33,15 @@ def run_ranges(job, res):
         d0 = t0 + start * tick
         d1 = t0 + stop * tick
         stop_arg = (stop - start) * tick if i % 2 else d1
+        # the two doors (DateRange(...) / the classmethod Date.range(...)), and a stop date carried under another label than the
+        # start's: the same instant, hence the same range
+        relabel = [None, "TT", "GPS", "TAI", "UTC", "TDB"][(i // 4) % 6]
+        if relabel and not i % 2:
+            stop_arg = stop_arg.change_scale(relabel)
+        data["door"] = "Date.range" if (i // 2) % 2 else "DateRange"
+        data["stop_label"] = relabel if not i % 2 else "timedelta"
         try:
-            r = DateRange(d0, stop_arg, step * tick, inclusive=incl)
+            r = Date.range(d0, stop_arg, step * tick, inclusive=incl) if (i // 2) % 2 else DateRange(d0, stop_arg, step * tick, inclusive=incl)
         except ValueError as e:
             clause(res, "valid (start, stop, step) are accepted", False, "daterange/rejected", f"rejected: {e}", data)
             continue
@@ -42,16 +49,27 @@ def run_ranges(job, res):
         res["traces"] += 1
         kinds.add((step > 0, incl, stop == start, (stop - start) % abs(step) == 0))
         got = [round((d - t0).total_seconds() / tick.total_seconds(), 6) for d in r]
+        seqs = [[float(x) for x in v["seq"]]]
+        lens = [v["len"]]
+        relabelled = bool(relabel) and not i % 2
+        if relabelled and (stop - start) % abs(step) == 0:
+            # a relabelled stop is the same instant up to the float noise of change_scale (< 1 ns, known findings date/*-float-noise):
+            # whether the date ON the boundary belongs to the range is not judged here - everything else is
+            alt = [x for x in seqs[0] if x != float(stop)]
+            seqs += [alt, alt + [float(stop)]]
+            lens += [len(alt), len(alt) + 1]
         clause(res, "iteration yields start, start+step, ... up to stop (inclusive iff asked), none beyond",
-               got == [float(x) for x in v["seq"]], "daterange/iter", f"iterated {got} expected {v['seq']}", data)
+               got in seqs, "daterange/iter", f"iterated {got} expected {v['seq']} (door {data['door']}, stop carried as {data['stop_label']})", data)
         try:
             n = len(r)
         except Exception as e:
             n = f"{type(e).__name__}: {e}"
-        clause(res, "len() equals the number of iterated dates", n == v["len"], "daterange/len",
-               f"len {n} expected {v['len']}", data)
+        clause(res, "len() equals the number of iterated dates", n in lens, "daterange/len",
+               f"len {n} expected {v['len']} (door {data['door']}, stop carried as {data['stop_label']})", data)
         wrong = []
         for x in range(-job["probe"], job["probe"] + 1):
+            if relabelled and x == stop:
+                continue
             inside = (t0 + x * tick) in r
             if inside != (x in v["members"]):
                 wrong.append(x)
